@@ -524,6 +524,17 @@ func referrerChain() []vh.NodeSpec {
 		{Kind: "artifact", Art: "application/vnd.verif.sbom", Edges: []vh.Edge{e("subject", 4), e("blob", 1)}}}
 }
 
+// containedReferrer is a crafted universe: an image, a signature referring to it, an index that lists the signature
+// (as a signed bundle would), and an attestation referring to the signature.
+func containedReferrer() []vh.NodeSpec {
+	e := func(role string, to int) vh.Edge { return vh.Edge{Role: role, To: to} }
+	return []vh.NodeSpec{{}, {Kind: "blob", Edges: []vh.Edge{}},
+		{Kind: "manifest", Edges: []vh.Edge{e("config", 1)}},
+		{Kind: "manifest", Art: "application/vnd.verif.sig", Edges: []vh.Edge{e("subject", 2), e("config", 1)}},
+		{Kind: "index", Edges: []vh.Edge{e("manifest", 3)}},
+		{Kind: "manifest", Art: "application/vnd.verif.att", Edges: []vh.Edge{e("subject", 3), e("config", 1)}}}
+}
+
 func genScenario(rng *rand.Rand, kind string) Scenario {
 	n := 3 + rng.Intn(3)
 	succ := vh.RandomSucc(n, rng, 30+rng.Intn(30))
@@ -532,6 +543,9 @@ func genScenario(rng *rand.Rand, kind string) Scenario {
 	chain := kind == "oci" && rng.Intn(4) == 0
 	if chain {
 		nodes = referrerChain()
+		if rng.Intn(2) == 0 {
+			nodes = containedReferrer()
+		}
 		n = len(nodes) - 1
 	}
 	sc := Scenario{Kind: kind, Nodes: nodes, AutoGC: rng.Intn(2) == 0, AutoSave: rng.Intn(4) != 0, Reopen: "end"}
